@@ -5006,3 +5006,21 @@ func hrRestoreBeforeFallbackReload(w *World, r *Report, rule string) {
 	}
 	r.Check(n >= 1, rule, "handleApplyFlows/fallback-reloads", f.Pos(), "%d fallback reloads inspected", n)
 }
+
+// hrMemoryStateOwnStore: every shared state has a store of its own.
+func hrMemoryStateOwnStore(w *World, r *Report, rule string) {
+	f := w.Fn(pkgLctx, "NewMemoryState")
+	if f == nil {
+		r.Undec(rule, "NewMemoryState", token.NoPos, "function not found")
+		return
+	}
+	n, ok := 0, true
+	for _, alt := range ReturnAlts(f, 0) {
+		n++
+		cm := litField(alt.Val, "contextMemory")
+		if cm == nil || !isCallTo0(cm, "lunar-context.NewContext") {
+			ok = false
+		}
+	}
+	r.Check(ok && n == 1, rule, "NewMemoryState/store-of-its-own", f.Pos(), "contextMemory is a NewContext() made for this state (a store shared by all states lets two quotas whose key strings coincide share a window)")
+}
